@@ -102,6 +102,12 @@ def generate(tier):
                     cases.append({"rows": rows, "durs": durs, "form": "time_course", "grid": sub, "relative": rel, "start": start})
             for tps in (1, 3):
                 cases.append({"rows": rows, "durs": durs, "form": "protocol", "tps": tps, "start": start})
+            if len(durs) <= 2:
+                for cols in ("ck", "k"):
+                    cases.append({"rows": rows, "durs": durs, "form": "protocol", "tps": 3, "start": start, "cols": cols})
+                    for sub in subsets:
+                        if len(sub) == 1 and max(cand[i] for i in sub) > 0.0:
+                            cases.append({"rows": rows, "durs": durs, "form": "time_course", "grid": sub, "relative": False, "start": start, "cols": cols})
     return cases
 
 
@@ -116,7 +122,9 @@ def check(case):
 
     nt = len(case["durs"]) >= 2 or case["start"] != "fresh"
     txt = f"{case}"
-    steps = [(d, dict(ROWS[r])) for r, d in zip(case["rows"], case["durs"], strict=True)]
+    # the steps' dictionaries as written (k, c), with the keys the other way round, or naming k only
+    shape = {"kc": dict, "ck": lambda r: dict(reversed(list(r.items()))), "k": lambda r: {"k": r["k"]}}[case.get("cols", "kc")]
+    steps = [(d, shape(ROWS[r])) for r, d in zip(case["rows"], case["durs"], strict=True)]
     protocol = mxlpy.make_protocol(steps)
     sim = Simulator(make_model())
     # reference bookkeeping
